@@ -14,6 +14,11 @@ CHECKS = {
    text="From every pre-state of a catalog/KV/session BFS, every list (length<=2 over 39 verbs; length 3 over a focused subset in thorough) is applied as one Txn raft command, which places a failing operation at every position. Failure => full 36-table dump identical, no event batch published, no tombstone-GC hint deferred, no watch channel fired (fresh-instance pass), no results. Success => every changed row carries the entry's index and content equals applying the same operations one by one. Read-only transactions leave the dump identical.",
    note="Watch-channel firing is only observable on a primary memdb, so that clause runs on freshly replayed instances from the seed states only. Stand-alone equivalents exist for non-CAS verbs; lists containing catalog CAS verbs are checked for atomicity but not differentially.",
    design="§3 C05"),
+ "C07": dict(level="model_checking", engine="E1 opseq-BFS",
+   technique="explicit-state BFS over catalog/config-entry/txn command sequences on the real FSM; orphan and cascade invariants, derived views recomputed from base tables, rebuild differential",
+   text="Every command sequence (to the reported depth, from every seed) over node/service/check register and deregister (typical, connect-proxy with upstreams, connect-native, terminating/ingress gateways, instance IDs different from names, peer-imported rows, rename by ID), gateway / service-defaults(destination) / proxy-defaults entries, virtual-IP switches, manual VIPs, coordinates and catalog transactions. On every reached state: no service/check/coordinate without its node, no service check without its instance; kind-service-names and the proxy upstream/downstream table (with per-instance references) recomputed from the registrations; gateway links checked against the config entries (exact => link, link => covered, wildcard => qualifying services, stale wildcard links); virtual IPs injective, free list disjoint, advertised == assigned; kind-service-names, proxy topology and usage counters compared with a store rebuilt from the base rows alone in two canonical orders. On every transition: an assignment is only released when no instance of the service remains.",
+   note="gateway-services is not compared with the rebuild because upstream fills ServiceKind and proxy-only wildcard links order-dependently; its links are checked by explicit rules. One known finding (virtual IP released while proxies of the service remain) is listed in known-findings.json.",
+   design="§3 C07"),
  "C10": dict(level="exploration", engine="E3 grid",
    technique="exhaustive enumeration of command family x pre-state x supplied-index grid on the real FSM; matched/applied/reported oracle on full state dumps",
    text="Every conditional command type (KV cas/delete-cas direct and in transactions, check-index guards, catalog node/service/check cas and delete-cas incl. writers carrying a different node ID, config entry upsert-cas/with-status-cas/delete-cas, CA set-config, CA set-roots, CA set-roots-and-config with the cross product of both indexes, autopilot CAS, ACL token CAS, feature-gate update with both expected indexes) is applied to every pre-state (absent, present, modified, re-created, deleted) with every supplied index class (0, current, previous, future). Matched is computed from the pre-state; applied from a byte comparison of the full 36-table dump; required: matched<=>applied<=>reported, and composites all-or-nothing.",
